@@ -4,7 +4,11 @@
 (* or RxPacketAligner (Patterns chosen in the cfg):                         *)
 (*   [v, w       -- sink.valid, input symbols                               *)
 (*    ov, ow,    -- source.valid, output symbols                            *)
-(*    ooff]      -- alignment_offset, all sampled before the clock edge     *)
+(*    ooff,      -- alignment_offset, all sampled before the clock edge     *)
+(*    rst]       -- the `ss` domain reset is asserted in this cycle (the    *)
+(*                  harness offers no input word then): the output of this  *)
+(*                  cycle is still checked; afterwards the aligner is as    *)
+(*                  new (offset 0, no previous word, nothing pending).      *)
 (* The output may lag by any bounded number of cycles: every valid input    *)
 (* word queues its expected presentation, every valid output word must be   *)
 (* the oldest one queued.                                                   *)
@@ -44,9 +48,9 @@ TNext == /\ status = "ok"
          /\ l <= Len(Logs[tid])
          /\ LET r == Logs[tid][l] IN
               /\ status' = Failing(r)
-              /\ exp' = IF r.ov /\ Exp1(r) # <<>> THEN Tail(Exp1(r)) ELSE Exp1(r)
-              /\ off' = IF r.v THEN NewOff(off, prev, Word(r.w)) ELSE off
-              /\ prev' = IF r.v THEN Word(r.w) ELSE prev
+              /\ exp' = IF r.rst THEN <<>> ELSE IF r.ov /\ Exp1(r) # <<>> THEN Tail(Exp1(r)) ELSE Exp1(r)
+              /\ off' = IF r.rst THEN 0 ELSE IF r.v THEN NewOff(off, prev, Word(r.w)) ELSE off
+              /\ prev' = IF r.rst THEN <<Unknown, Unknown, Unknown, Unknown>> ELSE IF r.v THEN Word(r.w) ELSE prev
          /\ l' = l + 1
          /\ UNCHANGED tid
 
